@@ -48,7 +48,7 @@ func sameList(L *LState, base int, want []LValue) bool {
 
 // C14.strlib — string.find/match/gmatch/gsub deliver lstrlib's results (positions, captures, init clamping, replacement assembly).
 //
-//verif:harness prop=C14,C15 tier=quick qparams=slen:2 tparams=slen:3 bounds="12 patterns x subjects of <= slen symbolic bytes x init any 32-bit integer; gsub with 4 replacement strings, function and table replacements returning a string / false / nil"
+//verif:harness prop=C14,C15 tier=quick qparams=slen:2 tparams=slen:3 bounds="12 patterns x subjects of <= slen symbolic bytes x init any 32-bit integer; gsub with 4 replacement strings and a number, with and without a maximum count in -1..3, function and table replacements returning a string / false / nil"
 func H_C14_strlib() {
 	L := newL(Options{}, BaseLibName, StringLibName)
 	pat := c14LibPatterns[VChoice(len(c14LibPatterns))]
@@ -165,20 +165,27 @@ func H_C14_strlib() {
 		} else {
 			VAssert(sameList(L, base, refCaptureValues(src, m, true)), "match: captures (or whole match) as lstrlib: "+pat)
 		}
-	case 2: // gmatch: collect everything the iterator yields
-		err := L.DoString(`function collect(s, p) local out, n = {}, 0; for a, b in string.gmatch(s, p) do n = n + 1; out[n] = {a, b} end; return out, n end`)
+	case 2: // gmatch: collect everything the iterator yields, through a generic for or by calling it directly
+		direct := VChoice(2) == 1
+		helper := `function collect(s, p) local out, n = {}, 0; for a, b in string.gmatch(s, p) do n = n + 1; out[n] = {a, b} end; return out, n, true end`
+		if direct {
+			helper = `function collect(s, p) local out, n = {}, 0; local f = string.gmatch(s, p); while true do local a, b = f(); if a == nil then break end; n = n + 1; out[n] = {a, b} end; return out, n, select('#', f()) == 0 and f() == nil end`
+		}
+		err := L.DoString(helper)
 		VAssert(err == nil, "gmatch: helper")
 		L.Push(L.GetGlobal("collect"))
 		L.Push(LString(src))
 		L.Push(LString(pat))
-		err = L.PCall(2, 2, nil)
+		err = L.PCall(2, 3, nil)
 		VAssert(err == nil, "gmatch: no error: "+pat)
-		ref, _ := pm.RefFindAll(pat, []byte(src))
-		if pat == "^a" {
-			// in gmatch a leading '^' is not an anchor in 5.1 (it would loop forever); outside the compared set
-			VReach("end")
-			return
+		VAssert(L.Get(base+3) == LTrue, "gmatch: the exhausted iterator keeps returning nothing: "+pat)
+		// in gmatch a leading '^' is not an anchor (lstrlib's gmatch_aux hands the pattern to the matcher
+		// unstripped, where '^' is an ordinary character)
+		gpat := pat
+		if len(gpat) > 0 && gpat[0] == '^' {
+			gpat = "%" + gpat
 		}
+		ref, _ := pm.RefFindAll(gpat, []byte(src))
 		VAssert(L.Get(base+2) == LNumber(len(ref)), "gmatch: same number of matches as lstrlib: "+pat)
 		out, _ := L.Get(base + 1).(*LTable)
 		for i, m := range ref {
@@ -194,14 +201,35 @@ func H_C14_strlib() {
 			}
 		}
 	case 3: // gsub with a replacement string
-		repls := []string{"x", "<%0>", "%1%1", "%%"}
-		repl := repls[VChoice(len(repls))]
+		repls := []string{"x", "<%0>", "%1%1", "%%", "7"}
+		rk := VChoice(len(repls))
+		repl := repls[rk]
 		L.Push(L.GetField(strlib, "gsub"))
 		L.Push(LString(src))
 		L.Push(LString(pat))
-		L.Push(LString(repl))
-		err := L.PCall(3, 2, nil)
+		if rk == 4 {
+			L.Push(LNumber(7)) // a number is a valid replacement (converted to its string)
+		} else {
+			L.Push(LString(repl))
+		}
+		// optional fourth argument: at most n substitutions (str_gsub: while (n < max_s)); none for n <= 0
+		nargs := 3
+		maxs := -1
+		if VChoice(2) == 1 {
+			maxs = VChoice(5) - 1 // -1, 0, 1, 2, 3
+			L.Push(LNumber(maxs))
+			nargs = 4
+		} else {
+			maxs = 1 << 30
+		}
+		err := L.PCall(nargs, 2, nil)
 		ref, _ := pm.RefFindAll(pat, []byte(src))
+		if maxs < 0 {
+			maxs = 0
+		}
+		if len(ref) > maxs {
+			ref = ref[:maxs]
+		}
 		// lstrlib add_s
 		want := ""
 		pos := 0
